@@ -70,4 +70,131 @@ theorem natCast_beq (n m : Nat) : (((n : Int) == (m : Int)) : Bool) = (n == m) :
   · have : ¬ (n : Int) = m := by omega
     rw [beq_eq_false_iff_ne.mpr h, beq_eq_false_iff_ne.mpr this]
 
+
+/-! ### control values over model states -/
+
+variable {σ ρ τ : Type}
+
+/-- a control value over model states, seen through the embedding `R` of the state -/
+def mapS (R : τ → σ) : Ctl τ ρ → Ctl σ ρ
+  | .next t => .next (R t)
+  | .brk t => .brk (R t)
+  | .ret r => .ret r
+  | .panic f => .panic f
+
+@[simp] theorem mapS_next (R : τ → σ) (t : τ) : mapS R (.next t : Ctl τ ρ) = .next (R t) := rfl
+@[simp] theorem mapS_brk (R : τ → σ) (t : τ) : mapS R (.brk t : Ctl τ ρ) = .brk (R t) := rfl
+@[simp] theorem mapS_ret (R : τ → σ) (r : ρ) : mapS R (.ret r : Ctl τ ρ) = .ret r := rfl
+@[simp] theorem mapS_panic (R : τ → σ) (f : Fault) : mapS R (.panic f : Ctl τ ρ) = .panic f := rfl
+
+theorem mapS_thenR (R : τ → σ) (c : Ctl τ ρ) (k : σ → Res ρ) : (mapS R c).thenR k = c.thenR (fun t => k (R t)) := by
+  cases c <;> rfl
+
+theorem mapS_thenC {σ' : Type} (R : τ → σ') (c : Ctl τ ρ) (k : σ' → Ctl σ ρ) :
+    (mapS R c).thenC k = c.thenC (fun t => k (R t)) := by
+  cases c <;> rfl
+
+/-- a model step (`Res`) as a control value -/
+def stepC : Res τ → Ctl τ ρ
+  | .ok t => .next t
+  | .error f => .panic f
+
+@[simp] theorem stepC_ok (t : τ) : (stepC (.ok t) : Ctl τ ρ) = .next t := rfl
+@[simp] theorem stepC_error (f : Fault) : (stepC (.error f : Res τ) : Ctl τ ρ) = .panic f := rfl
+
+/-- list-driven iteration: step `i` consumes the next element -/
+def iterL (g : Nat → Nat → τ → Ctl τ ρ) : Nat → List Nat → τ → Ctl τ ρ
+  | _, [], t => .next t
+  | i, x :: xs, t =>
+    match g i x t with
+    | .next t' => iterL g (i + 1) xs t'
+    | .brk t' => .brk t'
+    | .ret r => .ret r
+    | .panic f => .panic f
+
+/-- `for i := a; i < a + len(l); i++` whose `j`-th step is the model step `g` on `l[j]` -/
+theorem loop_list (R : τ → σ) (body : Int → σ → Ctl σ ρ) (g : Nat → Nat → τ → Ctl τ ρ) :
+    ∀ (l : List Nat) (a : Nat) (t : τ),
+      (∀ j (hj : j < l.length) t, body ((a + j : Nat) : Int) (R t) = mapS R (g (a + j) l[j] t)) →
+      loop body 1 l.length (a : Int) (R t) = mapS R (iterL g a l t) := by
+  intro l
+  induction l with
+  | nil => intro a t _; rfl
+  | cons x xs ih =>
+    intro a t hb
+    have h0 := hb 0 (by simp) t
+    simp only [Nat.add_zero, List.getElem_cons_zero] at h0
+    rw [List.length_cons, loop_succ, h0]
+    simp only [iterL]
+    cases hg : g a x t with
+    | next t' =>
+      simp only [mapS_next]
+      have e : (a : Int) + 1 = ((a + 1 : Nat) : Int) := by omega
+      rw [e]
+      refine ih (a + 1) t' (fun j hj t => ?_)
+      have := hb (j + 1) (by simp; omega) t
+      simp only [List.getElem_cons_succ] at this
+      rw [show a + 1 + j = a + (j + 1) by omega]
+      exact this
+    | brk t' => rfl
+    | ret r => rfl
+    | panic f => rfl
+
+theorem loop_list' (R : τ → σ) (g : Nat → Nat → τ → Ctl τ ρ) (l : List Nat) (a : Nat) (t : τ)
+    {body : Int → σ → Ctl σ ρ} {n : Nat} {i0 : Int} {s : σ}
+    (hs : s = R t) (hn : n = l.length) (hi : i0 = (a : Int))
+    (hb : ∀ j (hj : j < l.length) t, body ((a + j : Nat) : Int) (R t) = mapS R (g (a + j) l[j] t)) :
+    loop body 1 n i0 s = mapS R (iterL g a l t) := by
+  subst hs hn hi; exact loop_list R body g l a t hb
+
+/-- `for i, x := range l` -/
+theorem forRange_list (R : τ → σ) (body : Int → Int → σ → Ctl σ ρ) (g : Nat → Nat → τ → Ctl τ ρ) :
+    ∀ (l : List Nat) (a : Nat) (t : τ),
+      (∀ j (hj : j < l.length) t, body ((a + j : Nat) : Int) ((l[j] : Nat) : Int) (R t) = mapS R (g (a + j) l[j] t)) →
+      forRange body (ints l) (a : Int) (R t) = mapS R (iterL g a l t) := by
+  intro l
+  induction l with
+  | nil => intro a t _; rfl
+  | cons x xs ih =>
+    intro a t hb
+    have h0 := hb 0 (by simp) t
+    simp only [Nat.add_zero, List.getElem_cons_zero] at h0
+    simp only [ints, List.map_cons, forRange, iterL]
+    rw [show Int.ofNat x = (x : Int) from rfl, h0]
+    cases hg : g a x t with
+    | next t' =>
+      simp only [mapS_next]
+      have e : (a : Int) + 1 = ((a + 1 : Nat) : Int) := by omega
+      rw [e]
+      refine ih (a + 1) t' (fun j hj t => ?_)
+      have := hb (j + 1) (by simp; omega) t
+      simp only [List.getElem_cons_succ] at this
+      rw [show a + 1 + j = a + (j + 1) by omega]
+      exact this
+    | brk t' => rfl
+    | ret r => rfl
+    | panic f => rfl
+
+theorem forRange_list' (R : τ → σ) (g : Nat → Nat → τ → Ctl τ ρ) (l : List Nat) (a : Nat) (t : τ)
+    {body : Int → Int → σ → Ctl σ ρ} {xs : List Int} {i0 : Int} {s : σ}
+    (hx : xs = ints l) (hs : s = R t) (hi : i0 = (a : Int))
+    (hb : ∀ j (hj : j < l.length) t, body ((a + j : Nat) : Int) ((l[j] : Nat) : Int) (R t) = mapS R (g (a + j) l[j] t)) :
+    forRange body xs i0 s = mapS R (iterL g a l t) := by
+  subst hx hs hi; exact forRange_list R body g l a t hb
+
+/-- a `for cond` loop whose body is a model step on related states -/
+theorem while_map (R : τ → σ) (body : σ → Ctl σ ρ) (f : τ → Ctl τ ρ) (hb : ∀ t, body (R t) = mapS R (f t)) :
+    ∀ (n : Nat) (t : τ), whileLoop body n (R t) = mapS R (whileLoop f n t) := by
+  intro n
+  induction n with
+  | zero => intro t; rfl
+  | succ n ih =>
+    intro t
+    rw [whileLoop_succ, whileLoop_succ, hb t]
+    cases f t with
+    | next t' => exact ih t'
+    | brk t' => rfl
+    | ret r => rfl
+    | panic f => rfl
+
 end Gzx.K04bTie
